@@ -14,6 +14,28 @@ let split_bar (fs : string list) : string list * string list =
 
 let opt_nat_of_field f = if f = "~" then None else Some (nat_of_int (int_of_string f))
 
+let cps_of_ascii (s : string) : n list = List.init (String.length s) (fun i -> n_of_int (Char.code s.[i]))
+
+(* ---- SemVer helpers ---- *)
+let ids_field (o : ident list option) : string =
+  match o with
+  | None -> "~"
+  | Some [] -> "-"
+  | Some l ->
+    String.concat ","
+      (List.map (function IStr s -> "s:" ^ field_of_str s | IUInt n -> "u:" ^ dec_of_n n) l)
+
+let semver_fields (v : semver) : string =
+  Printf.sprintf "%s %s %s %s %s %s" (field_of_str (semver_print v)) (dec_of_n v.sv_major) (dec_of_n v.sv_minor)
+    (dec_of_n v.sv_patch) (ids_field v.sv_pre) (ids_field v.sv_build)
+
+let cmp_name = function Eq -> "EQ" | Lt -> "LT" | Gt -> "GT"
+let sv_atoms s = List.map semver_atom_of s
+
+let check_text (name : string) (s : n list) (printed : n list) (normalized : bool) : n list =
+  cps_of_ascii "Version: " @ s @ [ n_of_int 10; n_of_int 0x2713 ] @ cps_of_ascii (" Valid " ^ name ^ " format")
+  @ if normalized then cps_of_ascii " (normalized: " @ printed @ cps_of_ascii ")" else []
+
 let dispatch (req : string list) (impl : string list) : string * string =
   match req with
   | [ "SAN"; sep; lower; keep; mx; s ] ->
@@ -62,6 +84,56 @@ let dispatch (req : string list) (impl : string list) : string * string =
       | _ -> "BAD:not-ok"
     in
     ("OK " ^ field_of_str m, verdict)
+  | [ "SVP"; s ] ->
+    let s = str_of_field s in
+    let m = semver_parse s in
+    let reply = match m with Some v -> "OK " ^ semver_fields v | None -> "ERR" in
+    let spec_acc = rx_accepts semver_spec (sv_atoms s) in
+    let extract_ok = semver_extract s <> None in
+    let verdict =
+      match impl with
+      | "OK" :: printed :: _ ->
+        if not spec_acc then "BAD:accepts-outside-grammar"
+        else if not (str_eqb (str_of_field printed) (strip_v s)) then "BAD:lossy-print"
+        else "OK"
+      | [ "ERR" ] -> if spec_acc && extract_ok then "BAD:rejects-grammar-member" else if spec_acc then "BAD:rejects-out-of-range-number" else "OK"
+      | _ -> "BAD:not-ok-or-err"
+    in
+    (reply, verdict)
+  | [ "SVC"; a; b ] ->
+    let reply =
+      match (semver_parse (str_of_field a), semver_parse (str_of_field b)) with
+      | Some x, Some y -> cmp_name (semver_cmp x y) ^ " " ^ if semver_eqb x y then "1" else "0"
+      | _ -> "ERR"
+    in
+    (reply, if String.concat " " impl = reply then "OK" else "BAD:precedence")
+  | "VMAX" :: "semver" :: _ :: tags ->
+    let parsed = List.map (fun t -> (t, semver_parse (str_of_field t))) tags in
+    if List.exists (fun (_, v) -> v = None) parsed then ("ERR", if impl = [ "ERR" ] then "OK" else "BAD:max-err")
+    else begin
+      let vs = List.map (fun (t, v) -> (t, Option.get v)) parsed in
+      match vs with
+      | [] -> ("NONE", if impl = [ "NONE" ] then "OK" else "BAD:max-none")
+      | first :: rest ->
+        let t, _ = max_by_last (fun (_, x) (_, y) -> semver_cmp x y) first rest in
+        let verdict =
+          match impl with
+          | [ "OK"; it ] -> (
+            match List.assoc_opt it vs with
+            | None -> "BAD:max-not-a-tag"
+            | Some iv -> if List.for_all (fun (_, x) -> semver_cmp x iv <> Gt) vs then "OK" else "BAD:not-maximal")
+          | _ -> "BAD:max-not-ok"
+        in
+        ("OK " ^ t, verdict)
+    end
+  | [ "CHK"; "semver"; s ] ->
+    let s = str_of_field s in
+    let reply =
+      match semver_check s with
+      | Some (p, nz) -> "OK " ^ field_of_str (check_text "SemVer" s p nz)
+      | None -> "ERR"
+    in
+    (reply, if String.concat " " impl = reply then "OK" else "BAD:check-verdict-or-text")
   | op :: _ -> failwith ("unknown op " ^ op)
   | [] -> failwith "empty"
 
